@@ -30,6 +30,9 @@ func world(entry string, fam, nT, nV, conv, form, sv int64, mode ...int64) Shard
 	if m&64 != 0 {
 		extra += ", target built with default values under its own parameters' keys (Call arguments must win)"
 	}
+	if m&128 != 0 {
+		extra += ", kind of error value symbolic (pointer error / the library's *ErrArgumentUnsatisfied / struct-valued error that is the zero value of its type)"
+	}
 	if fam >= 100 {
 		skel := []string{"skeleton 0: multi-input converter entered through one input, typed inputs with symbolic subtypes", "skeleton 1: diamond of two multi-input converters", "skeleton 2: two-output converter feeding two parameters, symbolic names/subtypes",
 			"skeleton 3: provider competing with direct values, symbolic names/subtypes", "skeleton 4: chain of three with a bidirectional pair", "skeleton 5: two named parameters converted from competing named inputs with subtypes", "skeleton 6: deep diamond (5 converters, named+subtyped intermediate, interface target)", "skeleton 7: two supplied converters of identical Go type and a hopeless named parameter", "skeleton 8: same-name conversion adding a subtype fed by another converter (negative-weight loop under the name discount)", "skeleton 9: named values of one name and type with symbolic subtypes around a multi-input converter and a provider"}
@@ -120,9 +123,10 @@ func registerResolver() {
 	register(&PropSpec{
 		ID: "C04", Pkg: "argmapper",
 		Quick: []Shard{
-			world("HarnessC04", 0, 1, 1, 11, 9, 0), world("HarnessC04", 1, 1, 1, 1111, 1, 0), world("HarnessC04", 0, 1, 1, 1121, 0, 0), world("HarnessC04", 0, 1, 1, 12, 9, 0), world("HarnessC04", 1, 1, 1, 12, 1, 0), world("HarnessC04", 101, 0, 0, 0, 1, 0), world("HarnessC04", 106, 0, 0, 0, 1, 0), world("HarnessC04", 104, 0, 0, 0, 0, 0), world("HarnessC04", 0, 1, 1, 1211, 1, 0, 2),
+			world("HarnessC04", 0, 1, 1, 11, 9, 0), world("HarnessC04", 1, 1, 1, 1111, 1, 0), world("HarnessC04", 0, 1, 1, 1121, 0, 0), world("HarnessC04", 0, 1, 1, 12, 9, 0), world("HarnessC04", 1, 1, 1, 12, 1, 0), world("HarnessC04", 101, 0, 0, 0, 1, 0), world("HarnessC04", 106, 0, 0, 0, 1, 0), world("HarnessC04", 104, 0, 0, 0, 0, 0), world("HarnessC04", 0, 1, 1, 1211, 1, 0, 2), world("HarnessC04", 0, 1, 1, 11, 1, 0, 128), world("HarnessC04", 5, 1, 1, 1111, 1, 0, 128),
 		},
 		Thorough: []Shard{
+			world("HarnessC04", 0, 1, 1, 11, 1, 0, 128), world("HarnessC04", 5, 1, 1, 1111, 1, 0, 128), world("HarnessC04", 0, 1, 1, 11, 9, 0, 130), world("HarnessC04", 101, 0, 0, 0, 1, 0, 128),
 			world("HarnessC04", 0, 1, 1, 11, 9, 0), world("HarnessC04", 1, 1, 1, 1111, 1, 0), world("HarnessC04", 0, 1, 1, 1121, 0, 0), world("HarnessC04", 0, 1, 1, 12, 9, 0), world("HarnessC04", 1, 1, 1, 12, 1, 0), world("HarnessC04", 101, 0, 0, 0, 1, 0), world("HarnessC04", 106, 0, 0, 0, 1, 0), world("HarnessC04", 104, 0, 0, 0, 0, 0), world("HarnessC04", 0, 1, 1, 1211, 1, 0, 2), world("HarnessC04", 0, 2, 1, 1111, 1, 1), world("HarnessC04", 0, 1, 1, 111111, 1, 0), world("HarnessC04", 3, 1, 1, 1111, 0, 0), world("HarnessC04", 0, 1, 2, 2111, 2, 0), world("HarnessC04", 3, 1, 1, 12, 9, 0), world("HarnessC04", 5, 1, 1, 211111, 0, 0), world("HarnessC04", 100, 0, 0, 0, 9, 0), world("HarnessC04", 102, 0, 0, 0, 9, 0, 2), world("HarnessC04", 101, 0, 0, 0, 9, 0, 2),
 		},
 		Covers:   []string{"C04.call-returned", "C04.converter-failed", "C04.target-failed", "C04.success"},
